@@ -59,8 +59,11 @@ def gen_unit(unit, outdir=UNITS, repo=None, canaries=True):
     if idx < 0:
         raise Undecided("unit template %s lacks '} // verus!'" % unit)
     l0 = txt[:idx].count("\n") + 1
-    txt = txt[:idx] + GLOBAL_CANARY + txt[idx:]
-    report["global_canary_lines"] = [l0, l0 + GLOBAL_CANARY.count("\n")]
+    # the canary pulls in every trusted broadcast axiom that exists in this unit
+    names = [n for n in ["group_field_bool", "axiom_val_in_field", "axiom_H_shape", "lemma_rc_ok", "axiom_spec_lz"] if re.search(r"\b(fn|group)\s+%s\b" % n, txt)]
+    canary = GLOBAL_CANARY.replace("    broadcast use group_field_bool, axiom_val_in_field, axiom_H_shape, lemma_rc_ok;\n", ("    broadcast use %s;\n" % ", ".join(names)) if names else "")
+    txt = txt[:idx] + canary + txt[idx:]
+    report["global_canary_lines"] = [l0, l0 + canary.count("\n")]
     open(out, "w").write(txt)
     json.dump(report, open(rep, "w"), indent=1)
     return out, report
